@@ -85,6 +85,28 @@ def _ser_layout(t):
     return out
 
 
+def _ds_part(t):
+    """Is `t` the k-th component of a deser_str(...) result (by index, or by field name if the function returns a NamedTuple / dataclass)?
+    -> (k, the deser_str application) or None"""
+    from ..terms import Attr as _Attr
+    if isinstance(t, Sub) and t.index in (0, 1) and isinstance(t.base, App) and t.base.fname == f"{API}.deser_str":
+        return t.index, t.base
+    if isinstance(t, _Attr) and isinstance(t.base, App) and t.base.fname == f"{API}.deser_str":
+        from ..repo import get_repo
+        repo = get_repo()
+        fi = repo.funcs.get(f"{API}.deser_str")
+        ann = getattr(fi.node, "returns", None) if fi is not None else None
+        if ann is not None:
+            for n in ast.walk(ann):
+                if isinstance(n, (ast.Name, ast.Attribute)):
+                    q = repo.resolve_expr(fi.module, n)
+                    if q in repo.classes:
+                        names = [st.target.id for st in repo.classes[q].node.body if isinstance(st, ast.AnnAssign) and isinstance(st.target, ast.Name)]
+                        if t.attr in names[:2]:
+                            return names.index(t.attr), t.base
+    return None
+
+
 def _cursor(cur, root="data"):
     """cursor term -> list of consumed pieces before it, or None"""
     if isinstance(cur, Sym) and cur.name == root:
@@ -92,8 +114,9 @@ def _cursor(cur, root="data"):
     if isinstance(cur, Sub) and isinstance(cur.index, slice) and cur.index.stop is None and cur.index.step is None and isinstance(cur.index.start, int):
         b = _cursor(cur.base, root)
         return None if b is None else b + [("int", cur.index.start)]
-    if isinstance(cur, Sub) and cur.index == 1 and isinstance(cur.base, App) and cur.base.fname == f"{API}.deser_str":
-        b = _cursor(cur.base.args[0], root)
+    part = _ds_part(cur)
+    if part is not None and part[0] == 1:
+        b = _cursor(part[1].args[0], root)
         return None if b is None else b + [("str",)]
     return None
 
@@ -114,8 +137,9 @@ def _deser_field(v):
             if isinstance(sl.index, slice) and sl.index.start is None and sl.index.stop == w:
                 return ("int", w, o, sl.base, sg)
             return None
-    if isinstance(v, Sub) and v.index == 0 and isinstance(v.base, App) and v.base.fname == f"{API}.deser_str":
-        return ("str", None, None, v.base.args[0])
+    part = _ds_part(v)
+    if part is not None and part[0] == 0:
+        return ("str", None, None, part[1].args[0])
     if isinstance(v, App) and len(v.args) == 1 and not v.kwargs and v.fname.startswith(API):  # Enum(int)
         inner = _deser_field(v.args[0])
         if inner and inner[0] == "int":
@@ -241,7 +265,10 @@ def r1_layouts(ctx):
     if not encs:
         ctx.undecided("C17.R1", loc(s), "ser_str: no encode call found")
     for enc in encs[:1]:
-        if list(enc.data["args"]) != ["ascii"] or enc.data["kwargs"]:
+        ea, ek = list(enc.data["args"]), dict(enc.data["kwargs"])
+        codec = ea[0] if ea else ek.get("encoding")
+        errs = ea[1] if len(ea) > 1 else ek.get("errors", "strict")
+        if codec != "ascii" or errs != "strict" or len(ea) > 2 or set(ek) - {"encoding", "errors"}:
             ctx.violation("C17.R1", s.qual, loc(s), "ser_str strict codec",
                           f"ser_str encodes with {vkey(enc.data['args'])} {enc.data['kwargs']}: a string outside the admitted (ASCII) domain must be rejected "
                           f"when encoding, never silently altered; only a plain strict 'ascii' encode does that")
